@@ -23,16 +23,43 @@ pub static DEF: PropDef = PropDef {
     id: "C11",
     level: "exploration",
     engine: "query",
-    rule: "one run = a store populated through the real ingester, a real QueryNode behind the real axum router (POST and GET /api/v1/sql, Prometheus instant-query endpoint) called in-process, plus the direct entry points QueryNode::query, QueryEngine::prepare and QueryEngine::analyze (the Flight SQL paths) and the streaming entry point; 8..16 statements generated from a grammar over what the embedded engine parses (COPY .. TO, CREATE [EXTERNAL] TABLE / VIEW, CREATE TABLE AS, DROP TABLE / VIEW incl. metrics, INSERT, SET, EXPLAIN [ANALYZE] of those, multi-statement strings, plain SELECT / EXPLAIN SELECT / SHOW as controls) with target locations drawn from fresh paths, existing chunk paths and the catalog object; after every statement: the query node's store handle issued no mutating request, the full object listing (path, size, ETag) is unchanged, a fixed probe query returns the same answer, and a mutating statement returned an error; distinct = distinct (statement text, entry point) hash; non-trivial = a mutating statement was submitted",
+    rule: "one run = a store populated through the real ingester, a real QueryNode behind the real axum router (POST and GET /api/v1/sql, Prometheus instant-query endpoint) called in-process, plus the direct entry points QueryNode::query, QueryEngine::prepare and QueryEngine::analyze (the Flight SQL paths) and the streaming entry point, plus the node's real Flight SQL service (tonic server as run_query_grpc_server assembles it) reached by arrow-flight's own Flight SQL client over an in-memory duplex transport: statement queries (GetFlightInfo + DoGet), statement updates (DoPut), prepared statements executed either way; 8..16 statements generated from a grammar over what the embedded engine parses (COPY .. TO, CREATE [EXTERNAL] TABLE / VIEW, CREATE TABLE AS, DROP TABLE / VIEW incl. metrics, INSERT, DELETE / UPDATE / TRUNCATE, CREATE / DROP SCHEMA and DATABASE, CREATE / DROP FUNCTION, CREATE INDEX, ALTER TABLE, PREPARE / EXECUTE / DEALLOCATE, SET, EXPLAIN [ANALYZE] of those, multi-statement strings, plain SELECT / EXPLAIN SELECT / SHOW as controls) with target locations drawn from fresh paths, existing chunk paths and the catalog object; after every statement: the query node's store handle issued no mutating request, the full object listing (path, size, ETag) is unchanged, a fixed probe query returns the same answer, the session's catalog / schema / table names and configuration options are unchanged, and a mutating statement returned an error; distinct = distinct (statement text, entry point) hash; non-trivial = a mutating statement was submitted",
     quick_runs: 800,
     thorough_runs: 6000,
     run_cap_ms: 120_000,
     scen,
     extra_phase: None,
-    real: &["api::build_http_router (axum handlers sql_http, prometheus_api) driven with tower::Service::oneshot", "QueryNode::query / query_stream, QueryEngine::{prepare, analyze}", "DataFusion SQL front end incl. COPY/DDL/DML planning and execution"],
-    stub: &["S3 = InMemory behind SimStore (per-issuer request log is the observation instrument)", "no sockets: handlers are called in-process"],
+    real: &["api::build_http_router (axum handlers sql_http, prometheus_api) driven with tower::Service::oneshot", "QueryNode::query / query_stream, QueryEngine::{prepare, analyze}", "FlightSqlFlightService / FlightSqlGrpcService behind tonic (HTTP/2 over an in-memory duplex) + arrow-flight FlightSqlServiceClient", "DataFusion SQL front end incl. COPY/DDL/DML planning and execution"],
+    stub: &["S3 = InMemory behind SimStore (per-issuer request log is the observation instrument)", "no sockets: HTTP handlers are called in-process, gRPC runs over tokio::io::duplex"],
     assumptions: &["no schedule or fault dimension in this statement: the simulator's storage seam is the instrument, the statement space is seeded generation"],
 };
+
+/// What later queries see besides the data: every (catalog, schema, table) name of the node's session and its
+/// configuration options.
+fn session_snapshot(qn: &QueryNode) -> (Vec<String>, Vec<String>) {
+    let ctx = qn.engine.context();
+    let mut names = Vec::new();
+    for c in ctx.catalog_names() {
+        if let Some(cat) = ctx.catalog(&c) {
+            for s in cat.schema_names() {
+                names.push(format!("{c}.{s}"));
+                if let Some(sch) = cat.schema(&s) {
+                    for t in sch.table_names() {
+                        // per-chunk helper tables come and go with ordinary queries; the logical names matter
+                        if !t.contains("chunk_") {
+                            names.push(format!("{c}.{s}.{t}"));
+                        }
+                    }
+                }
+            }
+        }
+    }
+    names.sort();
+    let state = ctx.state();
+    let mut opts: Vec<String> = state.config_options().entries().into_iter().map(|e| format!("{}={:?}", e.key, e.value)).collect();
+    opts.sort();
+    (names, opts)
+}
 
 struct Stmt {
     sql: String,
@@ -52,7 +79,16 @@ fn gen_stmt(chunk_paths: &[String]) -> Stmt {
         _ => fresh_dir.clone(),
     };
     let sel = ["SELECT 1 AS x", "SELECT * FROM metrics", "SELECT timestamp, metric_name, value_i64 FROM metrics WHERE value_i64 > 2"][sim::w(3) as usize];
-    let core: (String, bool) = match sim::w(16) {
+    let core: (String, bool) = match sim::w(24) {
+        // schemas / catalogs / functions / indexes / row-level DML / prepared statements of the engine's own dialect
+        16 => (["CREATE SCHEMA scratch", "CREATE SCHEMA IF NOT EXISTS scratch", "CREATE DATABASE other", "CREATE SCHEMA datafusion.s2"][sim::w(4) as usize].to_string(), true),
+        17 => (["DROP SCHEMA IF EXISTS public CASCADE", "DROP SCHEMA public CASCADE", "drop schema datafusion.public cascade", "DROP SCHEMA IF EXISTS no_such_schema"][sim::w(4) as usize].to_string(), true),
+        18 => (["DELETE FROM metrics", "DELETE FROM metrics WHERE value_i64 > 2", "UPDATE metrics SET value_i64 = 0", "TRUNCATE TABLE metrics"][sim::w(4) as usize].to_string(), true),
+        19 => (["CREATE FUNCTION f1(DOUBLE) RETURNS DOUBLE RETURN $1 + 1", "DROP FUNCTION IF EXISTS abs", "CREATE INDEX i1 ON metrics (metric_name)", "ALTER TABLE metrics RENAME TO m2"][sim::w(4) as usize].to_string(), true),
+        20 => (["PREPARE p1 AS SELECT 1", "PREPARE p2(INT) AS SELECT * FROM metrics WHERE value_i64 > $1", "DEALLOCATE p1", "EXECUTE p1"][sim::w(4) as usize].to_string(), true),
+        21 => (format!("CREATE UNBOUNDED EXTERNAL TABLE u{} (a INT) STORED AS CSV LOCATION '{fresh_dir}'", sim::w(50)), true),
+        22 => (format!("INSERT INTO metrics SELECT * FROM metrics; SELECT 1"), true),
+        23 => (format!("COPY ({sel}) TO '{target}' STORED AS CSV"), true),
         0 => (format!("COPY ({sel}) TO '{target}'"), true),
         1 => (format!("COPY ({sel}) TO '{target}' STORED AS PARQUET"), true),
         2 => (format!("COPY metrics TO '{target}' STORED AS PARQUET"), true),
@@ -126,13 +162,21 @@ fn scen(_spec: RunSpec) -> ScenFut {
             }
         };
         let listing0 = store::raw_list(&inner).await;
+        let session0 = session_snapshot(&qn);
+        let mut flight = match super::flight::connect(qn.clone()).await {
+            Ok(c) => c,
+            Err(e) => {
+                sim::with(|st| st.abort = Some(format!("flight sql client: {e}")));
+                return;
+            }
+        };
         let q_events0 = store::with_events(|e| e.len());
         let n = sim::w_range(8, 16);
         let mut hist = String::new();
         let mut any_mut = false;
         for k in 0..n {
             let st = gen_stmt(&chunk_paths);
-            let entry = sim::w(7);
+            let entry = sim::w(12);
             any_mut |= st.mutating;
             let ev_before = store::with_events(|e| e.len());
             let (entry_name, outcome): (&str, Result<String, String>) = match entry {
@@ -151,6 +195,10 @@ fn scen(_spec: RunSpec) -> ScenFut {
                     let code = resp.status();
                     ("GET /api/v1/sql", if code == StatusCode::OK { Ok(format!("{code}")) } else { Err(format!("{code}")) })
                 }
+                7 | 8 => ("Flight SQL CommandStatementQuery (GetFlightInfo + DoGet)", super::flight::query(&mut flight, &st.sql).await.map(|b| format!("{} batches", b.len()))),
+                9 => ("Flight SQL CommandStatementUpdate (DoPut)", super::flight::update(&mut flight, &st.sql).await.map(|n| format!("{n} rows affected"))),
+                10 => ("Flight SQL prepared statement, executed as a query", super::flight::prepared(&mut flight, &st.sql, false).await),
+                11 => ("Flight SQL prepared statement, executed as an update", super::flight::prepared(&mut flight, &st.sql, true).await),
                 4 => ("QueryEngine::prepare (Flight SQL)", qn.engine.prepare(&st.sql).await.map(|_| "handle".to_string()).map_err(|e| e.to_string())),
                 5 => ("QueryEngine::analyze (Flight SQL)", qn.engine.analyze(&st.sql).await.map(|_| "plan".to_string()).map_err(|e| e.to_string())),
                 _ => (
@@ -206,6 +254,19 @@ fn scen(_spec: RunSpec) -> ScenFut {
                     sim::set_completed();
                     return;
                 }
+            }
+            // 3b. the session's catalogs / schemas / tables and its configuration are what they were
+            let session = session_snapshot(&qn);
+            if session != session0 {
+                let diff = |a: &Vec<String>, b: &Vec<String>| -> (Vec<String>, Vec<String>) { (b.iter().filter(|x| !a.contains(x)).cloned().collect(), a.iter().filter(|x| !b.contains(x)).cloned().collect()) };
+                let (n_add, n_rem) = diff(&session0.0, &session.0);
+                let (o_add, o_rem) = diff(&session0.1, &session.1);
+                sim::violation(
+                    format!("C11/later-queries-changed/{kind}"),
+                    format!("after {} via {entry_name} the node's session differs: names added {:?}, removed {:?}; options now {:?}, before {:?}", st.sql, n_add, n_rem, o_add, o_rem),
+                );
+                sim::set_completed();
+                return;
             }
             // 4. a statement that would write or redefine tables must be rejected
             if st.mutating && outcome.is_ok() {
